@@ -95,6 +95,18 @@ pub fn run(out: &mut dyn Write, rng: &mut Rng, n: usize, mutation_seeds: usize) 
         let s = random_fen(rng, men);
         parse_line(out, s.as_bytes(), &mut hist);
     }
+    // stream 1b: clock fields at and beyond the four-digit / 16-bit boundaries
+    let clocks = ["0", "00", "007", "9", "99", "100", "999", "1000", "9999", "10000", "12345", "65535", "65536", "65537", "99999", "100000", "655360", "4294967296", "18446744073709551616"];
+    for i in 0..(n / 40).max(3) {
+        let base = &valid[(i * 31) % valid.len()];
+        let f: Vec<&str> = base.split(' ').collect();
+        if f.len() == 6 {
+            for c in clocks {
+                parse_line(out, format!("{} {} {} {} {} {}", f[0], f[1], f[2], f[3], c, f[5]).as_bytes(), &mut hist);
+                parse_line(out, format!("{} {} {} {} {} {}", f[0], f[1], f[2], f[3], f[4], c).as_bytes(), &mut hist);
+            }
+        }
+    }
     // stream 2: every single-byte edit of a few seeds
     for k in 0..mutation_seeds {
         let seed = valid[(k * 7919) % valid.len()].clone().into_bytes();
